@@ -119,7 +119,7 @@ def vocab_for(alphabet, anchors=()):
     alphabet = tuple(alphabet)
     attrs = (".",) + tuple(k for k in alphabet if isinstance(k, str) and k != "")[:3]
     v = pathgen.vocabulary(
-        keys=alphabet, idx=(-1, 0, 1, 2), slices=((0, 1), (0, 2), (1, 1)),
+        keys=alphabet, idx=(-1, 0, 1, 2), slices=((0, 1), (0, 2), (1, 1), (-9, 2), (-9, -1)),      # incl. a start before the list
         attrs=attrs, terms=("a", "1"), ops=("=", "<", "=~"), inverted=(False, True),
         globs=("a*",), regex_terms=(".",))
     kws = list(KEYWORDS)
@@ -823,7 +823,8 @@ def _items(tier, seed):
         add(t, "all2" if not quick and len(doc_keys(t)) <= 1 else "sample", n=150 if quick else 500)
     deep = [{k: {k2: 1}} for k in PUNCT_KEYS for k2 in PUNCT_KEYS[:6]] + \
            [[{k: 1}, {k: "a", "a": 2}] for k in PUNCT_KEYS] + [{k: [{k: 1}]} for k in PUNCT_KEYS] + \
-           [{"r": gen.SetT((k, "m"))} for k in PUNCT_KEYS]
+           [{"r": gen.SetT((k, "m"))} for k in PUNCT_KEYS] + \
+           [[None, {"a": 1}, {"a": 2}, None, {"a": 1}], {"r": [None, {"a": 1, "b": 2}, {"a": 2}]}]     # Arrays-of-Hashes with null members
     for t in deep:
         add(t, "all2" if not quick else "sample", n=150)
     # C. anchors / aliases / one merge key
